@@ -949,6 +949,155 @@ def check_lambda_evaluates_every_time(repo, rep):
            'test on the value)', loc=yt.loc(call.node))
 
 
+def check_stored_lambda_once_per_success(repo, rep, uni):
+    """R11j: an object that stores a per-group / per-element lambda
+    (GroupAggregator.aggregator) applies it at most once on every path on
+    which no application failed.  (A second application after the first one
+    *raised* is the documented fallback; a second application after a
+    successful one runs the lambda twice for that group.)"""
+    n = 0
+    for ci in repo.all_classes():
+        if not ci.module.name.startswith('yaql.standard_library'):
+            continue
+        init = ci.methods.get('__init__')
+        if init is None:
+            continue
+        # attributes bound to a constructor parameter and called as functions
+        attrs = set()
+        ps = set(init.params()[1:])
+        for st in model.walk_shallow(init.node):
+            if isinstance(st, ast.Assign) and isinstance(
+                    st.value, ast.Name) and st.value.id in ps:
+                for t in st.targets:
+                    if isinstance(t, ast.Attribute):
+                        attrs.add(t.attr)
+        called = set()
+        for m in ci.methods.values():
+            for c in model.calls_in(m.node):
+                if isinstance(c.func, ast.Attribute) and isinstance(
+                        c.func.value, ast.Name) and c.func.value.id == \
+                        'self' and c.func.attr in attrs:
+                    called.add(c.func.attr)
+        if not called:
+            continue
+        # is the stored callable a lambda of a yaql call?  (instantiated with
+        # a lazily declared parameter somewhere)
+        lazy_fed = False
+        for f in repo.all_functions():
+            ov = uni.payload_ov.get(f.key) or uni.payload_ov.get(
+                f.parent_func.key if f.parent_func else '', ())
+            lz = {p.name for o in (ov or ()) for p in o.params
+                  if p.type.lazy}
+            if not lz:
+                continue
+            for c in model.calls_in(f.node):
+                if model.norm(c.func).endswith(ci.node.name) and any(
+                        isinstance(a, ast.Name) and a.id in lz
+                        for a in list(c.args) + [k.value
+                                                 for k in c.keywords]):
+                    lazy_fed = True
+        if not lazy_fed:
+            continue
+        # applications per method, own-method calls counted through
+        direct = {}
+        for name, m in ci.methods.items():
+            direct[name] = m
+
+        def count_on_normal_paths(m, depth=0):
+            g = cfgmod.CFG(m.node)
+            per = {}
+            for nd in g.nodes:
+                k = 0
+                for c in cfgmod.node_calls(nd):
+                    f = c.func
+                    if isinstance(f, ast.Attribute) and isinstance(
+                            f.value, ast.Name) and f.value.id == 'self':
+                        if f.attr in called:
+                            k += 1
+                        elif f.attr in direct and depth < 2 and \
+                                direct[f.attr] is not m:
+                            k += count_on_normal_paths(direct[f.attr],
+                                                       depth + 1)
+                if k:
+                    per[nd.id] = k
+            worst = 0
+            for path in g.paths(max_visits=1, limit=4000):
+                # exception-free: never take an edge into a handler
+                ok = True
+                for a, b in zip(path, path[1:]):
+                    if any(s is b and lab == 'exc' for s, lab in a.succ) \
+                            and not any(s is b and lab != 'exc'
+                                        for s, lab in a.succ):
+                        ok = False
+                        break
+                if ok:
+                    worst = max(worst, sum(per.get(x.id, 0) for x in path))
+            return worst
+        for name, m in sorted(ci.methods.items()):
+            if name == '__init__':
+                continue
+            if not any(isinstance(c.func, ast.Attribute) and
+                       c.func.attr in called | set(direct)
+                       for c in model.calls_in(m.node)):
+                continue
+            w = count_on_normal_paths(m)
+            if w == 0:
+                continue
+            n += 1
+            rep.ob('R11j', '%s/%s' % (m.key, '+'.join(sorted(called))),
+                   w <= 1,
+                   '%s.%s can apply the stored lambda %d times on a path '
+                   'on which no application failed: the lambda runs more '
+                   'than once for one group / element' % (
+                       ci.node.name, name, w), loc=ci.module.loc(m.node))
+    rep.floor('methods applying a stored lambda', n, 1)
+
+
+def check_no_retry_of_evaluation(repo, rep):
+    """R11i: a node evaluates its operands once.  A `try` whose body
+    dispatches an evaluation (super().__call__(...), self(...), a context
+    dispatch) and whose handler dispatches it *again* re-runs everything the
+    first attempt had already evaluated before it failed: every argument to
+    the left of the failing sub-expression is evaluated twice."""
+    ex = repo.module('yaql.language.expressions')
+    n = 0
+
+    def dispatches(stmts):
+        out = []
+        for st in stmts:
+            for c in ast.walk(st):
+                if not isinstance(c, ast.Call):
+                    continue
+                f = c.func
+                if isinstance(f, ast.Attribute) and f.attr == '__call__':
+                    out.append(c)
+                elif isinstance(f, ast.Call):
+                    out.append(c)        # context(name, engine, ...)(...)
+                elif isinstance(f, ast.Name) and f.id == 'self':
+                    out.append(c)
+        return out
+    for fi in ex.functions.values():
+        if fi.cls is None or fi.name not in ('__call__', 'evaluate'):
+            continue
+        for t in [x for x in ast.walk(fi.node) if isinstance(x, ast.Try)]:
+            first = dispatches(t.body)
+            if not first:
+                continue
+            n += 1
+            again = [c for h in t.handlers for c in dispatches(h.body)]
+            rep.ob('R11i', '%s/try' % fi.key, not again,
+                   '%s evaluates (`%s`), and on %s evaluates again (`%s`): '
+                   'whatever the first attempt had evaluated before it '
+                   'failed runs a second time' % (
+                       fi.qualname, model.norm(first[0])[:50],
+                       ', '.join(model.norm(h.type) if h.type else 'any '
+                                 'exception' for h in t.handlers),
+                       model.norm(again[0])[:50] if again else ''),
+                   loc=ex.loc(again[0] if again else t),
+                   construct=model.norm(again[0]) if again else '')
+    rep.floor('guarded evaluations in the expression nodes', n, 1)
+
+
 def run(repo, rep):
     from sa import resmodel
     resmodel.install(repo, rep)
@@ -987,6 +1136,14 @@ def run(repo, rep):
     rep.extra_cov['evaluation_sites'] = [
         '%s: %s' % (fi.key, model.norm(c)) for fi, c in sites]
     rep.floor('expression evaluation sites', len(sites), 9)
+    rep.rule('R11i', 'NO-RETRY-OF-EVALUATION: an expression node never '
+             'dispatches its evaluation again from an exception handler of '
+             'the first attempt')
+    check_no_retry_of_evaluation(repo, rep)
+    rep.rule('R11j', 'STORED-LAMBDA-ONCE-PER-SUCCESS: a stored per-group '
+             'lambda is applied at most once on any path without a failed '
+             'application')
+    check_stored_lambda_once_per_success(repo, rep, uni)
     rep.rule('R11h', 'SWEEP-SITUATIONS: in every call situation each eager '
              'argument is evaluated exactly once, after all candidates were '
              'mapped and before any delegate is requested, positional '
